@@ -91,6 +91,8 @@ Definition expected_skeleton : list string := [
   "          user = ''";
   "if self._internal_server:";
   "  content_length = int(environ.get('CONTENT_LENGTH') or 0)";
+  "  if content_length < 0:";
+  "    return response(*httputils.BAD_REQUEST)";
   "  if content_length:";
   "    if self._max_content_length > 0 and content_length > self._max_content_length:";
   "      return response(*httputils.REQUEST_ENTITY_TOO_LARGE)";
